@@ -70,11 +70,15 @@ template <class T> static std::string hexOf (const std::vector<T>& in)
     }
     return s;
 }
-static void failLine (const std::string& name, const char* ty, const std::string& what, const std::string& in)
+// one line per (pair, code, input class, element type): the key of a finding must not depend on the seed
+static std::map<std::string, long> failKeys;
+static void failLine (const std::string& name, const char* ty, const std::string& what, const std::string& in, const char* code = "mismatch", const char* cls = nullptr)
 {
     ++failures;
     ++stats[name].fails;
-    if (printed++ < 60) printf ("PAIRFAIL %s %s :: %s :: in=%s\n", name.c_str (), ty, what.c_str (), in.c_str ());
+    std::string key = name + ":" + code + ":" + (cls ? cls : "-");
+    if (failKeys[key + ":" + ty]++ == 0 && printed++ < 80)
+        printf ("PAIRFAIL %s | %s | %s | %s :: %s :: in=%s\n", name.c_str (), code, cls ? cls : "-", ty, what.c_str (), in.c_str ());
 }
 // failMode: 0 = no failure report to compare, 1 = throws => uFails, 2 = throws <=> uFails
 template <class T>
@@ -84,19 +88,32 @@ static void check (const std::string& name, int docKind, const Res<T>& c, const 
     Stat& s = stats[name];
     ++s.evals;
     if (cls) ++s.cls[std::string (cls) + (c.kind ? ":threw" : ":returned")];
-    if (u.kind != 0) { failLine (name, TN<T>::n (), "the unchecked form threw", hexOf (in)); return; }
+    if (u.kind != 0) { failLine (name, TN<T>::n (), "the unchecked form threw", hexOf (in), "unchecked-threw", cls); return; }
     if (c.kind == 0)
     {
         ++s.returned;
-        if (!sameBits (c, u)) failLine (name, TN<T>::n (), "checked form returned a result that is not bit-identical to the unchecked form's", hexOf (in));
-        if (failMode == 2 && uFails) failLine (name, TN<T>::n (), "unchecked form reports failure but the checked form did not throw", hexOf (in));
+        if (!sameBits (c, u))
+        {
+            std::string d = "checked form returned a result that is not bit-identical to the unchecked form's";
+            for (size_t k = 0; k < c.v.size () && k < u.v.size (); ++k)
+                if (memcmp (&c.v[k], &u.v[k], sizeof (T)) != 0)
+                {
+                    char b[160];
+                    snprintf (b, 160, " (component %zu: checked %.17g, unchecked %.17g)", k, (double) c.v[k], (double) u.v[k]);
+                    d += b;
+                    break;
+                }
+            if (c.i != u.i) d += " (integer / flag results differ)";
+            failLine (name, TN<T>::n (), d, hexOf (in), "not-bit-identical", cls);
+        }
+        if (failMode == 2 && uFails) failLine (name, TN<T>::n (), "unchecked form reports failure but the checked form did not throw", hexOf (in), "failure-without-throw", cls);
     }
     else
     {
         ++s.threw;
         if (c.kind != docKind)
-            failLine (name, TN<T>::n (), std::string ("wrong exception kind: got ") + (c.kind == 1 ? "domain_error" : c.kind == 2 ? "invalid_argument" : "other"), hexOf (in));
-        if (failMode >= 1 && !uFails) failLine (name, TN<T>::n (), "checked form threw but the unchecked form does not report failure", hexOf (in));
+            failLine (name, TN<T>::n (), std::string ("wrong exception kind: got ") + (c.kind == 1 ? "domain_error" : c.kind == 2 ? "invalid_argument" : "other"), hexOf (in), "wrong-exception-kind", cls);
+        if (failMode >= 1 && !uFails) failLine (name, TN<T>::n (), "checked form threw but the unchecked form does not report failure", hexOf (in), "throw-without-failure", cls);
     }
 }
 
@@ -176,8 +193,23 @@ template <class T, class V> static void vecPairs (const char* vn)
         case 4: for (int k = 0; k < N; ++k) a[k] = mod<T> (); cls = "moderate"; break;
         default: for (int k = 0; k < N; ++k) a[k] = any<T> ();
     }
+    {
+        // canonical witnesses first (deterministic, seed independent): one huge component whose square overflows, one tiny one
+        static int first = 0;
+        if (first < 2) { for (int k = 0; k < N; ++k) a[k] = T (0);
+                         a[0] = (T) std::ldexp (1.0, first == 0 ? std::numeric_limits<T>::max_exponent / 2 + 1 : std::numeric_limits<T>::min_exponent / 2 - 2); ++first; }
+    }
     std::vector<T> in;
     for (int k = 0; k < N; ++k) in.push_back (a[k]);
+    {
+        // class of the input by what it IS (not by how it was generated): the key of a finding must not depend on the seed
+        long double l2 = 0; bool fin = true, allz = true;
+        for (int k = 0; k < N; ++k) { l2 += (long double) a[k] * (long double) a[k]; fin = fin && std::isfinite ((double) a[k]); allz = allz && a[k] == T (0); }
+        cls = !fin ? "non-finite" : allz ? "zero-vector"
+              : l2 > (long double) std::numeric_limits<T>::max ()
+                  ? (std::sqrt (l2) <= (long double) std::numeric_limits<T>::max () ? "finite,length2-overflows,length-representable" : "finite,length-itself-overflows")
+              : l2 < 2 * (long double) std::numeric_limits<T>::min () ? "length2-underflows" : "length2-normal";
+    }
     bool zeroLen = a.length () == T (0);
     std::string p = std::string (vn) + ".";
     {
@@ -188,14 +220,14 @@ template <class T, class V> static void vecPairs (const char* vn)
         check<T> (p + "normalizedExc/normalized", 1, c, u, 2, uz, in, cls);
         auto w = run<T> ([&] (Res<T>& r) { putV (r, a.normalizedNonNull ()); });
         check<T> (p + "normalizedExc/normalizedNonNull", 1, c, w, 0, false, in);
-        if ((c.kind != 0) != zeroLen) failLine (p + "normalizedExc/normalized", TN<T>::n (), "throws is not equivalent to length () == 0", hexOf (in));
+        if ((c.kind != 0) != zeroLen) failLine (p + "normalizedExc/normalized", TN<T>::n (), "throws is not equivalent to length () == 0", hexOf (in), "throw-vs-length0", cls);
     }
     {
         auto c = run<T> ([&] (Res<T>& r) { V b = a; const V& ref = b.normalizeExc (); putV (r, b); putV (r, ref); });
         auto u = run<T> ([&] (Res<T>& r) { V b = a; const V& ref = b.normalize (); putV (r, b); putV (r, ref); });
         Res<T> same; putV (same, a); putV (same, a);
         check<T> (p + "normalizeExc/normalize", 1, c, u, 2, zeroLen, in, cls);
-        if (zeroLen && !sameBits (u, same)) failLine (p + "normalizeExc/normalize", TN<T>::n (), "normalize () of a zero-length vector changed it", hexOf (in));
+        if (zeroLen && !sameBits (u, same)) failLine (p + "normalizeExc/normalize", TN<T>::n (), "normalize () of a zero-length vector changed it", hexOf (in), "failure-changed-vector", cls);
         auto w = run<T> ([&] (Res<T>& r) { V b = a; const V& ref = b.normalizeNonNull (); putV (r, b); putV (r, ref); });
         check<T> (p + "normalizeExc/normalizeNonNull", 1, c, w, 0, false, in);
     }
@@ -300,17 +332,18 @@ template <class T, class M, int N> static void inversePairs (const char* mn)
     auto cT = run<T> ([&] (Res<T>& r) { putM (r, m.inverse (true)); });
     auto cF = run<T> ([&] (Res<T>& r) { putM (r, m.inverse (false)); });
     Res<T> id; putM (id, M ());
-    check<T> (p + "inverse(true)/inverse()", 2, cT, u, 1, sameBits (u, id), in, cls);
+    // "reports failure" = the identity is returned for a matrix that is not the identity (exact for 2x2 / 3x3 by theorem M22/M33_inverse_failure)
+    const bool notId = !(m == M ());
+    check<T> (p + "inverse(true)/inverse()", 2, cT, u, 2, sameBits (u, id) && notId, in, cls);
     check<T> (p + "inverse(false)/inverse()", 2, cF, u, 0, false, in);
-    if (cT.kind == 0 && sameBits (u, id) && !(m == M ())) ++stats[p + "inverse(true)/inverse()"].cls["identity-returned-for-non-identity-without-throw(rounding)"];
     auto iu = run<T> ([&] (Res<T>& r) { M b = m; const M& ref = b.invert (); putM (r, b); putM (r, ref); });
     auto iT = run<T> ([&] (Res<T>& r) { M b = m; const M& ref = b.invert (true); putM (r, b); putM (r, ref); });
     auto iF = run<T> ([&] (Res<T>& r) { M b = m; const M& ref = b.invert (false); putM (r, b); putM (r, ref); });
     Res<T> id2; putM (id2, M ()); putM (id2, M ());
-    check<T> (p + "invert(true)/invert()", 2, iT, iu, 1, sameBits (iu, id2), in, cls);
+    check<T> (p + "invert(true)/invert()", 2, iT, iu, 2, sameBits (iu, id2) && notId, in, cls);
     check<T> (p + "invert(false)/invert()", 2, iF, iu, 0, false, in);
     Res<T> uu = u; for (auto& x : u.v) uu.v.push_back (x);
-    if (!sameBits (iu, uu)) failLine (p + "invert()/inverse()", TN<T>::n (), "in-place form differs from the value form", hexOf (in));
+    if (!sameBits (iu, uu)) failLine (p + "invert()/inverse()", TN<T>::n (), "in-place form differs from the value form", hexOf (in), "inplace-vs-value", cls);
 }
 template <class T, class M, int N> static void gjPairs (const char* mn)
 {
@@ -323,17 +356,17 @@ template <class T, class M, int N> static void gjPairs (const char* mn)
     auto cT = run<T> ([&] (Res<T>& r) { putM (r, m.gjInverse (true)); });
     auto cF = run<T> ([&] (Res<T>& r) { putM (r, m.gjInverse (false)); });
     Res<T> id; putM (id, M ());
-    check<T> (p + "gjInverse(true)/gjInverse()", 2, cT, u, 1, sameBits (u, id), in, cls);
+    const bool notId = !(m == M ());
+    check<T> (p + "gjInverse(true)/gjInverse()", 2, cT, u, 2, sameBits (u, id) && notId, in, cls);
     check<T> (p + "gjInverse(false)/gjInverse()", 2, cF, u, 0, false, in);
-    if (cT.kind == 0 && sameBits (u, id) && !(m == M ())) ++stats[p + "gjInverse(true)/gjInverse()"].cls["identity-returned-for-non-identity-without-throw(rounding)"];
     auto iu = run<T> ([&] (Res<T>& r) { M b = m; const M& ref = b.gjInvert (); putM (r, b); putM (r, ref); });
     auto iT = run<T> ([&] (Res<T>& r) { M b = m; const M& ref = b.gjInvert (true); putM (r, b); putM (r, ref); });
     auto iF = run<T> ([&] (Res<T>& r) { M b = m; const M& ref = b.gjInvert (false); putM (r, b); putM (r, ref); });
     Res<T> id2; putM (id2, M ()); putM (id2, M ());
-    check<T> (p + "gjInvert(true)/gjInvert()", 2, iT, iu, 1, sameBits (iu, id2), in, cls);
+    check<T> (p + "gjInvert(true)/gjInvert()", 2, iT, iu, 2, sameBits (iu, id2) && notId, in, cls);
     check<T> (p + "gjInvert(false)/gjInvert()", 2, iF, iu, 0, false, in);
     Res<T> uu = u; for (auto& x : u.v) uu.v.push_back (x);
-    if (!sameBits (iu, uu)) failLine (p + "gjInvert()/gjInverse()", TN<T>::n (), "in-place form differs from the value form", hexOf (in));
+    if (!sameBits (iu, uu)) failLine (p + "gjInvert()/gjInverse()", TN<T>::n (), "in-place form differs from the value form", hexOf (in), "inplace-vs-value", cls);
 }
 
 //---------------------------------------------------------------------------
@@ -562,14 +595,14 @@ template <class T> static void algoPairs ()
         bool f3 = u3.i.size () == 1 && u3.i[0] == 0;
         if (c3.kind) u3.i.clear ();
         check<T> ("Algo.checkForZeroScaleInRow(Vec3)", 1, c3, u3, 2, f3, in, cls);
-        if (f3 != (gGe (row.x, scl) || gGe (row.y, scl) || gGe (row.z, scl))) failLine ("Algo.checkForZeroScaleInRow(Vec3)", TN<T>::n (), "false is not equivalent to the >= guard", hexOf (in));
+        if (f3 != (gGe (row.x, scl) || gGe (row.y, scl) || gGe (row.z, scl))) failLine ("Algo.checkForZeroScaleInRow(Vec3)", TN<T>::n (), "false is not equivalent to the >= guard", hexOf (in), "false-vs-guard", cls);
         Vec2<T> row2 (row.x, row.y);
         auto c2 = run<T> ([&] (Res<T>& q) { q.i.push_back (checkForZeroScaleInRow (scl, row2, true)); });
         auto u2 = run<T> ([&] (Res<T>& q) { q.i.push_back (checkForZeroScaleInRow (scl, row2, false)); });
         bool f2 = u2.i.size () == 1 && u2.i[0] == 0;
         if (c2.kind) u2.i.clear ();
         check<T> ("Algo.checkForZeroScaleInRow(Vec2)", 1, c2, u2, 2, f2, in, cls);
-        if (f2 != (gGe (row.x, scl) || gGe (row.y, scl))) failLine ("Algo.checkForZeroScaleInRow(Vec2)", TN<T>::n (), "false is not equivalent to the >= guard", hexOf (in));
+        if (f2 != (gGe (row.x, scl) || gGe (row.y, scl))) failLine ("Algo.checkForZeroScaleInRow(Vec2)", TN<T>::n (), "false is not equivalent to the >= guard", hexOf (in), "false-vs-guard", cls);
     }
     // generic runner for a bool-returning function with outputs: body(exc, Res) pushes the flag into .i and the outputs into .v
     auto boolPair = [&] (const std::string& name, const std::vector<T>& in, const char* cls, std::function<void (bool, Res<T>&)> body) {
